@@ -37,6 +37,7 @@ type updRevObs struct {
 	tmpl string
 	rev  string
 	uid  string
+	seq  int
 }
 
 func newOracleState() *oracleState {
